@@ -58,6 +58,14 @@ func SetDebugLogger(logger *log.Logger) {
 }
 
 func RegisterCustomFunctions(customFunctionInfoTbl []CustomFunctionInfo) {
+	// The function table is shared with concurrent compilations.
+	mu.Lock()
+	defer mu.Unlock()
+	registerCustomFunctions(customFunctionInfoTbl)
+}
+
+// registerCustomFunctions - the caller holds mu.
+func registerCustomFunctions(customFunctionInfoTbl []CustomFunctionInfo) {
 
 	pluginsLoaded = true
 
